@@ -340,6 +340,10 @@ def std_stages(tier, seed, battery, closed=("split", "long"), kinds_random=None,
     for i, u in enumerate(tuple(closed) + ("lfan",)):
         st.append(Stage("random", "alpha/string" if i % 2 == 0 else "alpha/bytes", u, size, battery, n=(5 if q else 20), len=(40 if q else 90),
                         batevery=1, dumpevery=3))
+    # the boundary values of every numeric width (0, -1, extremes and neighbours, float specials)
+    for k in (["int8", "uint16", "int32", "uint64", "int", "float32", "float64"] if q else
+              ["uint8", "uint16", "uint32", "uint64", "uint", "int8", "int16", "int32", "int64", "int", "float32", "float64"]):
+        st.append(Stage("random", k, "bounds", size, battery, n=(4 if q else 12), len=(40 if q else 90), batevery=2, dumpevery=4))
     kr = kinds_random if kinds_random is not None else SIMPLE_KINDS
     n = rnd_n or (4 if q else 30)
     ln = rnd_len or (50 if q else 120)
